@@ -130,7 +130,7 @@ func (*Elements).Index returns (n, ok)
   props C01 C02
   requires el != nil
   ensures @found  ok ==> 0 <= n && n < len(*el) && (*el)[n].Name == name && (forall j int :: 0 <= j && j < n ==> (*el)[j].Name != name)
-  ensures @absent !ok ==> n == 0 && (forall j int :: 0 <= j && j < len(*el) ==> (*el)[j].Name != name)
+  ensures @absent !ok ==> (forall j int :: 0 <= j && j < len(*el) ==> (*el)[j].Name != name)
   loop 1 {
     invariant @prefix forall j int :: 0 <= j && j < #i ==> (*el)[j].Name != name
   }
@@ -141,8 +141,8 @@ func (*Elements).Add
   modifies *el, elems(*el)
   ensures @len    len(*el) == old(len(*el)) + 1
   ensures @last   (*el)[old(len(*el))].Name == name && (*el)[old(len(*el))].Value == val
-  ensures @prefix forall i int :: 0 <= i && i < old(len(*el)) ==> (*el)[i] == old((*el)[i])
-  ensures @arr    arr(*el) == old(arr(*el)) || fresh(arr(*el))
+  ensures @prefix forall i int :: {(*el)[i]} 0 <= i && i < old(len(*el)) ==> (*el)[i] == old((*el)[i])
+  ensures @arr    (arr(*el) == old(arr(*el)) || fresh(arr(*el))) && arr(*el) != 0
 
 // SumMerge adds mult times every element of left to *el, merging by name: afterwards every name occurs once,
 // the amount of every name has grown by exactly mult times its amount in left, the names present are the old
@@ -214,13 +214,34 @@ pred WfAcc(acc Accumulator) :=
 macro AccPos(acc Accumulator, x string) float64 := if x in acc then mapget(acc, x)[1] else 0.0
 macro AccNeg(acc Accumulator, x string) float64 := if x in acc then mapget(acc, x)[0] else 0.0
 
+// The abstract view of an accumulator (ghost state, indexed by the accumulator): for every name the positive
+// register accP, the negative register accN, and whether the name has an entry at all (accH).
+// AccView couples the concrete map to the view; it is established by NewAccumulator and kept by Add, and it
+// is the only place where the representation (a map of two-element slices) is visible.
+ghost accP fmap[int]fmap[string]float64
+ghost accN fmap[int]fmap[string]float64
+ghost accH fmap[int]set[string]
+pred AccView(acc Accumulator) :=
+  forall x string :: {acc[x]} (x in acc) == (x in accH[acc]) && AccPos(acc, x) == accP[acc][x] && AccNeg(acc, x) == accN[acc][x]
+
+func NewAccumulator returns (acc)
+  props C02 C07 C12
+  modifies ghost(accP, accN, accH)
+  ensures @empty acc != nil && fresh(acc) && len(acc) == 0 && WfAcc(acc) && AccView(acc)
+  ensures @view accP == store(old(accP), acc, fconst(old(accP[acc]), 0.0)) && accN == store(old(accN), acc, fconst(old(accN[acc]), 0.0)) && accH == store(old(accH), acc, fconst(old(accH[acc]), false))
+  ghost before return 1 {
+    set accP := store(accP, acc, fconst(accP[acc], 0.0))
+    set accN := store(accN, acc, fconst(accN[acc], 0.0))
+    set accH := store(accH, acc, fconst(accH[acc], false))
+  }
+
 // Add routes a value by its sign: negative values to the negative register, all others to the positive one;
 // no other name is touched
 func (Accumulator).Add
-  props C02 C07
-  requires @wf WfAcc(acc)
+  props C02 C07 C12
+  requires @wf WfAcc(acc) && AccView(acc)
   modifies mapof(acc), elems(acc[name])
-  modifies ghost(accKey)
+  modifies ghost(accKey, accP, accN, accH)
   ensures @wf WfAcc(acc) && name in acc
   ensures @key accKey == store(old(accKey), arr(acc[name]), name)
   ghost after mapupdate 1 { set accKey := store(accKey, arr(acc[name]), name) }
@@ -229,6 +250,15 @@ func (Accumulator).Add
   ensures @positive val >= 0.0 ==> AccPos(acc, name) == old(AccPos(acc, name)) + val && AccNeg(acc, name) == old(AccNeg(acc, name))
   ensures @others forall x string :: {acc[x]} x != name ==> AccPos(acc, x) == old(AccPos(acc, x)) && AccNeg(acc, x) == old(AccNeg(acc, x))
   ensures @fresh-or-same forall k string :: {acc[k]} k in acc ==> (old(k in acc) && arr(acc[k]) == old(arr(acc[k]))) || fresh(arr(acc[k]))
+  ensures @view [C02 C07] AccView(acc)
+  ensures @view-pos [C02 C07] accP == store(old(accP), acc, store(old(accP[acc]), name, old(accP[acc][name]) + (if val < 0.0 then 0.0 else val)))
+  ensures @view-neg [C02 C07] accN == store(old(accN), acc, store(old(accN[acc]), name, old(accN[acc][name]) + (if val < 0.0 then val else 0.0)))
+  ensures @view-has [C02 C07] accH == store(old(accH), acc, store(old(accH[acc]), name, true))
+  ghost before return 1 {
+    set accP := store(accP, acc, store(accP[acc], name, accP[acc][name] + (if val < 0.0 then 0.0 else val)))
+    set accN := store(accN, acc, store(accN[acc], name, accN[acc][name] + (if val < 0.0 then val else 0.0)))
+    set accH := store(accH, acc, store(accH[acc], name, true))
+  }
 
 // ---------------------------------------------------------------------------------------------
 // NewLogNodeFromElements: the day's entries merged by food name: every distinct food once, with the sum of
